@@ -65,7 +65,7 @@ example :
 `Blue.FileLink`: per-file reference counts, `sst/` and `trash/` under the events of one
 compaction (`link` an output, `ref` by the version being installed, `unref` by a holder).  The
 code as it is links without taking a reference (finding `snapshot-released-between-output-link-
-and-install`): a counterexample; the repaired link (/repo commit dc44e03) takes
+and-install`): a counterexample; the repaired link (/repo commit dcee38b) takes
 one: referenced files stay in `sst/`. -/
 section FileLink
 open Blue.FileLink
